@@ -1125,3 +1125,47 @@ func mayBeError(v ssa.Value, pkg *ssa.Package, d int) bool {
 	}
 	return false
 }
+
+// ---------- C16-R13: client-supplied range bounds are not encoded with the record encoder ----------
+
+// The record encoding magic+key+split+revision keeps the order of user keys only among keys whose bytes are all
+// above the split byte. Stored Kubernetes keys are such keys; a client's range bound need not be (the continuation key
+// of a paginated list is lastKey+"\x00"), and a bound built by the record encoder then sorts in front of the records
+// of lastKey. A read entry point that hands a request-derived bound to EncodeObjectKey is reported; a repaired tree
+// encodes bounds with an encoder of their own (or validates them first), which this rule does not object to.
+func checkClientBoundsEncoding(p *Prog, r *Roles, res *Result, rule string) {
+	enc := p.ifaceMethod("pkg/backend/coder", "Coder", "EncodeObjectKey")
+	n := 0
+	for _, m := range []*types.Func{r.BList, r.BCount, r.BGetPartitions, r.BListByStream} {
+		f := p.implIn(m, "pkg/backend")
+		if f == nil {
+			continue
+		}
+		for _, g := range withAnon(f) {
+			for _, c := range callsIn(g) {
+				if !p.isCallToMethod(c, enc) {
+					continue
+				}
+				key := argForSigParam(c, 0)
+				rev := argForSigParam(c, 1)
+				if key == nil || rev == nil || !isZeroConst(strip(rev)) || !requestDerived(key) {
+					continue
+				}
+				name := "bound"
+				if ld, ok := resolve(key).(*ssa.UnOp); ok {
+					if fa, ok := ld.X.(*ssa.FieldAddr); ok {
+						name = fieldOf(fa).Name()
+					}
+				} else if pr, ok := resolve(key).(*ssa.Parameter); ok {
+					name = pr.Name()
+				}
+				n++
+				res.bad(rule, fmt.Sprintf("%s: range bound %s is encoded for the scan", funcName(f), name), p.pos(c.Pos()),
+					"a client-supplied range bound is encoded with the record encoder: magic+bound+split sorts by the bytes of the bound against the split byte, so a bound that contains a byte at or below the split byte (the continuation key lastKey+\"\\x00\" of a paginated list) lies in front of the records of lastKey and the range returns lastKey again")
+			}
+		}
+	}
+	if n == 0 {
+		res.ok(rule, "read entry points: range bounds", "-", "no request-derived bound is handed to the record encoder")
+	}
+}
